@@ -45,6 +45,18 @@ func subscribedState(ops []RegOp, fam string, key RegKey, i, r uint64) int {
 		return false
 	}
 	adds := func(o RegOp) bool { return o.Kind == "sub" || o.Kind == "bind" }
+	// a request that was being handled while its own connection (or entity) was removed may
+	// leave its entry behind for good (in flight, DESIGN 10.4): from then on the key is undecided
+	for _, o := range ops {
+		if !matches(o) || !adds(o) || o.Call >= r {
+			continue
+		}
+		for _, x := range ops {
+			if (x.Kind == "drop" || x.Kind == "entdrop") && matches(x) && o.Call < x.Return && x.Call < o.Return {
+				return -1
+			}
+		}
+	}
 	var last *RegOp
 	for idx := range ops {
 		o := ops[idx]
